@@ -240,6 +240,13 @@ def dynamic_legs(ctx, d, q):
     total = len(lines)
     if q and total > 1000:
         lines = random.Random(ctx.seed).sample(lines, 1000)
+    def blocking(line):
+        # number of Acquire calls that have to wait (not followed at once by their own await): schedules without
+        # waiting calls are replayed first, so that a lock that never lets a waiter in cannot hide what the
+        # non-blocking probes already show
+        c = json.loads(json.loads(line)) if line.lstrip().startswith('"') else json.loads(line)
+        return sum(1 for i, x in enumerate(c) if x[0] == "acq" and (i + 1 >= len(c) or c[i + 1] != ["await", x[1]]))
+    lines.sort(key=lambda l: (blocking(l), l))
     sel = os.path.join(ctx.work, "sched_sel.ndjson")
     with open(sel, "w") as f:
         f.writelines(lines)
